@@ -59,7 +59,8 @@ impl Pace {
     }
     /// `bytes_hint`: how many bytes this peer is expected to move; pauses are scaled so the
     /// whole transfer stays well below sozu's timeouts (slow peers are a separate, explicit fault).
-    pub fn random(rng: &mut Prng, bytes_hint: usize) -> Pace {
+    pub fn random(rng: &mut Prng, bytes_hint: usize) -> Pace { Pace::random_budget(rng, bytes_hint, 1_500_000_000) }
+    pub fn random_budget(rng: &mut Prng, bytes_hint: usize, budget_ns: u64) -> Pace {
         let gap_pm = *rng.pick(&[0u32, 0, 0, 50, 200, 500]);
         let mut wq = Quantum::random(rng);
         let mut rq = Quantum::random(rng);
@@ -75,7 +76,7 @@ impl Pace {
         let mut gap_ns = *rng.pick(&[1_000u64, 100_000, 1_000_000, 20_000_000]);
         if gap_pm > 0 {
             let pauses = ops * gap_pm as u64 / 1000 + 1;
-            gap_ns = gap_ns.min(1_500_000_000 / pauses).max(1);
+            gap_ns = gap_ns.min(budget_ns / pauses).max(1);
         }
         Pace { wq, rq, gap_pm, gap_ns }
     }
